@@ -236,8 +236,8 @@ Theorem C06_zero_opd_strehl_one :
   forall (data : list (R * R)) (c : R),
        (forall w i : R, In (w, i) data -> w = c) ->
        (forall w i : R, In (w, i) data -> (0 <= i)%R) ->
-       (0 < mean_ (map snd data))%R ->
-       rsum (map (fun '(_, i) => (i / mean_ (map snd data))%R) data) <> 0%R -> strehl_dc data = 1%R.
+       (0 < mean_ (O:=ROps) (map snd data))%R ->
+       rsum (map (fun '(_, i) => (i / mean_ (O:=ROps) (map snd data))%R) data) <> 0%R -> strehl_dc (O:=ROps) data = 1%R.
 Proof. exact zero_opd_strehl_one. Qed.
 Print Assumptions C06_zero_opd_strehl_one.
 
